@@ -74,3 +74,10 @@ chk("C17", "exploration",
     "and the tree and contents unchanged.",
     "The default order is read from the image packed without a sort file; only glob patterns with unambiguous meaning are generated; the interaction of dont_compress with a deduplicated tail is not judged.",
     "decoded-layout check against executable documentation semantics", "3/C17")
+chk("C16", "exploration",
+    "Every string up to length 2 (quick) / 3 (thorough) over {letter, space, tab, double quote, backslash, single quote, #, =, -, 0x80, 0xFF, CR} plus random longer ones is used as file, directory, symlink, "
+    "device, fifo and socket name, as symlink target and as unpack-root name. I1 is packed from a real directory (so the pack-file parser under test only sees describe output); rdsquashfs -d (with and "
+    "without -p, also with a hostile unpack-root name) and rdsquashfs -u produce the listing and files; gensquashfs -F rebuilds I2; the independent parser compares paths, types, permission bits, owners "
+    "(including the root directory), symlink targets, device numbers and contents.",
+    "Names are limited to what the host file system can hold (no '/', NUL, newline; <= 255 bytes). Timestamps and hard-link groups are not part of the statement and are not compared.",
+    "round-trip differential through the real tools, exhaustive short strings", "3/C16")
